@@ -25,7 +25,7 @@ def c08_oracle(case, obs):
             _, name, a, b, t = ev
             p = pair(a, b)
             if name == "hold":
-                held_link[p] = True
+                held_link[(a, b)] = held_link[(b, a)] = True
                 for i in [i for i, m in st.items() if pair(m["src"], m["dst"]) == p and m.get("resched") == t]:
                     due_step.pop(i, None)      # re-held before the tick
                 for i, m in st.items():
@@ -35,11 +35,17 @@ def c08_oracle(case, obs):
                             m["mature"] > t or (m.get("resched") == t)):
                         m["state"], m["batch"] = "held", None
             elif name == "release":
-                held_link[p] = False
+                held_link[(a, b)] = held_link[(b, a)] = False
                 batch += 1
                 for i, m in st.items():
                     if pair(m["src"], m["dst"]) == p and m["state"] == "held":
                         m["state"], m["mature"], m["batch"], m["resched"] = "flight", t, batch, t
+            elif name == "repair":
+                # "repair the link, without releasing any held messages": new sends flow again,
+                # what is parked stays parked until release / manual delivery
+                held_link[(a, b)] = held_link[(b, a)] = False
+            elif name == "repair_oneway":
+                held_link[(a, b)] = False
             elif name in ("partition", "partition_oneway"):
                 return []   # outside C08's alphabet
         elif k == "send":
@@ -49,7 +55,7 @@ def c08_oracle(case, obs):
                 if pair(m2["src"], m2["dst"]) == pair(src, dst):
                     m2["resched"] = None
             m = {"src": src, "dst": dst, "order": order, "batch": None}
-            if held_link.get(pair(src, dst)):
+            if held_link.get((src, dst)):
                 m["state"], m["mature"] = "held", None
             elif delay is None:
                 m["state"], m["mature"] = "dropped", None
